@@ -294,6 +294,23 @@ pub(crate) mod k {
         kani::cover!(c.radius <= 0.75 && close_end);
     }
 
+    /// contact predicates of a line with an arc / a circle
+    #[kani::proof]
+    #[kani::solver(kissat)]
+    #[kani::stub(crate::buffer::fragment_buffer::fragment::line::Line::angle_rad, stub_angle_rad)]
+    pub(crate) fn check_line_touching_arc_circle() {
+        let l = any_grid_line(LIM4);
+        unsafe { ANGLE = kani::any() };
+        let a = any_arc();
+        kani::assume(grid_lt(a.start, 64.0) && grid_lt(a.end, 64.0) && finite_bounded(a.radius));
+        kani::cover!(true);
+        let e = |p: Point, q: Point| p.x == q.x && p.y == q.y;
+        assert!(l.is_touching_arc(&a) == (e(l.start, a.start) || e(l.end, a.end) || e(l.start, a.end) || e(l.end, a.start)), "line touches an arc iff they share an end point");
+        let c = Circle::new(any_grid_point(LIM4), 0.5, kani::any());
+        let inside = |p: Point| p.distance(&c.center) < c.radius;
+        assert!(l.is_touching_circle(&c) == (inside(l.start) || inside(l.end)), "line touches a circle iff an end point lies strictly inside it");
+    }
+
     /// N4: bounds() is the per-axis min/max of the two end points
     #[kani::proof]
     pub(crate) fn check_line_bounds() {
